@@ -51,6 +51,15 @@ Inductive value :=
 | VBin (b : bytes)              (* the cell now holds attachment [b] *)
 | VSeq (l : list value).
 
+(** Attachments placed into a decoded value, in walk order. *)
+Fixpoint bins_of (v : value) : list bytes :=
+  match v with
+  | VOther => []
+  | VBin b => [b]
+  | VSeq l => (fix go (l : list value) : list bytes :=
+                 match l with [] => [] | x :: l' => bins_of x ++ go l' end) l
+  end.
+
 Section Placeholders.
   Variable buffers : list bytes.
 
